@@ -515,7 +515,7 @@ def _names(t, acc):
 
 
 def test_program(stmts, ret='empty', name='t', extra_funcs=(), unreach=False, locals_=LOCALS, params=PARAMS,
-                 globals_=GLOBALS, helpers=HELPERS, prune=True):
+                 globals_=GLOBALS, helpers=HELPERS, prune=True, pos=None):
     """the test function `name` with the given statements; with prune, only the helpers, globals,
     parameters and locals that the statements mention (transitively) are kept"""
     if prune:
@@ -528,7 +528,10 @@ def test_program(stmts, ret='empty', name='t', extra_funcs=(), unreach=False, lo
         globals_ = [g for g in globals_ if g[1] in used]
         locals_, helpers = keep_locals, keep_helpers
     f = ('Func', ret, name, ('params',) + tuple(params)) + tuple(locals_) + tuple(stmts)
-    return ('Program', unreach, ('vars',) + tuple(globals_), ('funcs',) + tuple(helpers) + tuple(extra_funcs) + (f,))
+    extra_funcs = tuple(extra_funcs)
+    if pos is not None:   # the caller declared between (or before) the other functions
+        return ('Program', unreach, ('vars',) + tuple(globals_), ('funcs',) + tuple(helpers) + extra_funcs[:pos] + (f,) + extra_funcs[pos:])
+    return ('Program', unreach, ('vars',) + tuple(globals_), ('funcs',) + tuple(helpers) + extra_funcs + (f,))
 
 
 def positions(src):
@@ -751,6 +754,16 @@ def tier_overloads(runner, hist, dis, rng, n_sets):
             stmts.append(('Expr', ('Call', name) + tuple(rng.choice(args_cat) for _ in range(arity))))
         for st in stmts:
             progs.append(test_program([st], extra_funcs=tuple(funcs)))
+        # declaration order must be the only thing that decides the fallback: the caller declared before / between the
+        # overloads, and the same call made from inside each overload's own body
+        for st in stmts[:3]:
+            for pos in range(len(funcs)):
+                progs.append(test_program([st], extra_funcs=tuple(funcs), pos=pos))
+                hist['overload-caller-position'] += 1
+            k = rng.randrange(len(funcs))
+            inner = [fn[:4] + (st,) + fn[4:] if i == k else fn for i, fn in enumerate(funcs)]
+            progs.append(test_program([st], extra_funcs=tuple(inner)))
+            hist['overload-call-inside-overload'] += 1
         hist['overload-set:%d' % len(sigs)] += 1
     for p in progs:
         hist['overloads'] += 1
